@@ -1,11 +1,84 @@
+"""C14 - AEAD modes (GCM, CCM, EAX) authenticate, invert and stream consistently.
+
+Harness: harness/h_aead.c (library driver, oracles) + harness/h_aead_ref.c
+(reference side: OpenSSL EVP GCM/CCM, EAX written from the paper over EVP CMAC
+and AES-CTR, direct RFC 3610 CCM as a cross-check of EVP CCM).
+"""
 from vrun import Job
+
 LEVEL = 'exploration'
-RULE = 'placeholder'
-ASSUMPTIONS = []
-EVAL = ['cmp_ref_enc']
-DISTINCT = ['config']
-REQUIRED = ['cmp_ref_enc']
+RULE = ('rand: seeded sessions (mode x AES ctr/ctrcbc impl x GHASH impl x key size), 1-6 messages per '
+        'reused context, nonce 1..64 (CCM 7..13, EAX also 0), tag 4..16 (CCM even), AAD/message 0..600 '
+        '(1% up to 5000) covering all residues mod 16, each message: encrypt vs reference, decrypt + '
+        'check_tag, re-encrypt under another random 1-5-way schedule (zero-length pieces included), one '
+        'random single-bit forgery; EAX runs use reset / reset_pre_aad / reset_post_aad as documented. '
+        'split: every two-way split of AAD and of message for every length 0..split_max on every '
+        'implementation combination. flip: every single-bit change of nonce, AAD, ciphertext, tag of short '
+        'messages (tag lengths 4..16). ccm: br_ccm_reset over nonce_len 0..20 x tag_len 0..20 x boundary '
+        'aad/data lengths against the documented rule; declared != actual lengths. edge: crafted nonces '
+        'putting the GCM 32-bit counter / EAX 128-bit counter just below wrap, AAD 65279..70000, message '
+        '4113..65541. A case is distinct by (mode, impl, key size) x (AAD mod 16, message mod 16).')
+ASSUMPTIONS = [
+    'OpenSSL 3.0 EVP AES-GCM (IV length 1..64), AES-CCM, AES-CTR, AES-ECB and EVP_MAC CMAC are correct',
+    'the EAX reference (h_aead_ref.c) follows the EAX paper; it is validated at every start against four test vectors of the paper',
+    'EVP AES-CCM and the direct RFC 3610 implementation must agree on every CCM case up to 2048 bytes, otherwise the run aborts (harness assert)',
+    'tag-forgery cases where check_tag returns 1 are re-judged with the reference, so genuine collisions of short tags are not reported',
+    'violations on EAX schedules where one br_eax_aad_inject call completes a partial block and carries more bytes get the key suffix :aad-straddle (input class)',
+]
+EVAL = ['cmp_ref_enc', 'cmp_roundtrip', 'cmp_split_rand', 'cmp_flip_rand', 'cmp_split2_aad',
+        'cmp_split2_msg_enc', 'cmp_split2_msg_dec', 'cmp_flip', 'cmp_flip_baseline',
+        'cmp_trunc_ignores_rest', 'cmp_ccm_reset', 'cmp_ccm_declared', 'cmp_ccm_after_refusal',
+        'cmp_edge_wrap', 'cmp_edge_long']
+DISTINCT = ['impl_residue']
+REQUIRED = ['cmp_ref_enc', 'cmp_roundtrip', 'cmp_split_rand', 'cmp_flip_rand', 'cmp_split2_aad',
+            'cmp_split2_msg_enc', 'cmp_split2_msg_dec', 'cmp_flip', 'flips_nonce', 'flips_aad',
+            'flips_ct', 'flips_tag', 'cmp_trunc_ignores_rest', 'cmp_ccm_reset',
+            'ccm_reset_expected_accept', 'ccm_reset_expected_refuse', 'cmp_ccm_declared',
+            'cmp_ccm_after_refusal', 'cmp_reuse', 'cmp_eax_pre', 'cmp_eax_post', 'cmp_eax_capture_const',
+            'cmp_edge_wrap', 'cmp_edge_long', 'edge_gcm_wrap_hit', 'edge_eax_wrap_hit', 'ref_eax_kat_ok']
+
+N = 16
+PARAMS = {
+    #           rand msgs/worker, split max, key sizes per (combo,L), flip msgs/combo, ccm declared/impl, edge reps
+    'quick':    dict(cases=40000, split_max=80, split_keys=3, flip_msgs=52, ccm_decl=300, edge=2),
+    'thorough': dict(cases=600000, split_max=200, split_keys=3, flip_msgs=520, ccm_decl=5000, edge=16),
+}
+
+
 def jobs(tier, seed):
-    n = 16
-    return [Job('w%d' % i, 'h_aead', ['--seed', seed, '--worker', i, '--nworkers', n, '--cases', 300],
-                flavour='asan', libs=['-lcrypto'], extra_src=['h_aead_ref.c'], timeout=600) for i in range(n)]
+    p = PARAMS['thorough' if tier == 'thorough' else 'quick']
+    return [Job('w%d' % i, 'h_aead',
+                ['--seed', seed, '--worker', i, '--nworkers', N, '--cases', p['cases'],
+                 '--split-max', p['split_max'], '--split-keys', p['split_keys'],
+                 '--flip-msgs', p['flip_msgs'], '--ccm-decl', p['ccm_decl'], '--edge', p['edge']],
+                flavour='asan', libs=['-lcrypto'], extra_src=['h_aead_ref.c'],
+                timeout=600 if tier != 'thorough' else 3000)
+            for i in range(N)]
+
+
+def finish(res, tier, seed):
+    # every implementation combination must have been reached, with all 256 residue pairs per mode
+    combos = res.maxes.get('combos', 0)
+    cfg = res.distinct.get('config', ())
+    if combos and len(cfg) < combos * 3:
+        res.inconclusive.append('only %d of %d (impl, key size) configurations exercised' % (len(cfg), combos * 3))
+    for mode in ('gcm', 'ccm', 'eax'):
+        n = len([t for t in res.distinct.get('residue', ()) if t.startswith(mode + '/')])
+        if n < 256:
+            res.inconclusive.append('%s: only %d of 256 (AAD mod 16, message mod 16) residue pairs seen' % (mode, n))
+    if res.sums.get('edge_gcm_wrap_missed', 0) or res.sums.get('edge_eax_wrap_missed', 0):
+        res.inconclusive.append('crafted wrap nonces missed their target counter value')
+
+
+def coverage_extra(res, tier):
+    d = res.distinct
+    return dict(
+        implementations=sorted(d.get('config', ())),
+        nonce_lengths={m: sorted(int(t.split('/')[1]) for t in d.get('nonce_len', ()) if t.startswith(m + '/'))
+                       for m in ('gcm', 'ccm', 'eax')},
+        tag_lengths={m: sorted(int(t.split('/')[1]) for t in d.get('tag_len', ()) if t.startswith(m + '/'))
+                     for m in ('gcm', 'ccm', 'eax')},
+        two_way_splits=len(d.get('split2', ())),
+        ccm_reset_classes=len(d.get('ccm_reset', ())),
+        params=PARAMS['thorough' if tier == 'thorough' else 'quick'],
+    )
